@@ -1139,3 +1139,319 @@ Proof.
   - rewrite Hw. cbn. rewrite Nat.eqb_refl. reflexivity.
   - destruct (aget x (dims s)); [reflexivity|]. cbn. destruct (Nat.eqb_spec x w); [congruence|reflexivity].
 Qed.
+
+Definition ii_j (cn : node) : nat := nth 0 (perm cn) 0.
+Definition ii_cw (cn : node) (ct : sarr) : wire := nth (ii_j cn) (axes ct) 0.
+Definition ii_ct (s : store) (cn : node) (ct : sarr) : sarr :=
+  {| axes := set_nth (ii_j cn) (next_wire s) (axes ct); atoms := atoms ct; bnd := bnd ct |}.
+Definition ii_nt (s : store) (cn : node) (ct : sarr) : sarr :=
+  {| axes := [ii_cw cn ct; next_wire s]; atoms := [next_atom s]; bnd := [] |}.
+Definition ii_pn (c new : id) (pn : node) : node := with_children pn (replace_first c new (children pn)).
+
+Lemma insert_identity_facts s c p new s' :
+  wf s -> insert_identity s c p new = Some s' ->
+  exists cn pn ct pm L',
+    aget c (nodes s) = Some cn /\ aget p (nodes s) = Some pn /\ aget c (tensors s) = Some ct /\
+    parent cn = Some p /\ In c (children pn) /\ aget new (nodes s) = None /\
+    p <> c /\ new <> p /\ new <> c /\
+    perm cn = ii_j cn :: pm /\ ~ In (ii_j cn) pm /\ ii_j cn < length (axes ct) /\
+    laxes cn ct = ii_cw cn ct :: L' /\ laxes (with_parent cn (Some new)) (ii_ct s cn ct) = next_wire s :: L' /\
+    ~ In (next_wire s) L' /\ ii_cw cn ct < next_wire s /\
+    nodes s' = aset new (ii_node p c (wdim s (ii_cw cn ct)))
+                 (aset p (ii_pn c new pn) (aset c (with_parent cn (Some new)) (nodes s))) /\
+    tensors s' = aset new (ii_nt s cn ct) (aset c (ii_ct s cn ct) (tensors s)) /\
+    root s' = root s /\ dims s' = dims s ++ [(next_wire s, wdim s (ii_cw cn ct))] /\
+    next_wire s' = S (next_wire s) /\ next_atom s' = S (next_atom s).
+Proof.
+  intros H Hi. destruct (insert_identity_inv _ _ _ _ _ Hi) as (cn & pn & ct & pn' & Ec & Ep & Et & Epar & Hin & Hnew & Hrn & Hs').
+  cbv zeta in Hs'. destruct Hs' as (Hn' & Ht' & Hr' & Hd' & Hw' & Ha').
+  pose proof (wf_node s H c cn Ec) as Hcn.
+  assert (Htc : tens s c = ct) by (apply tens_aget; exact Et).
+  assert (Hlen : length (shape cn) = length (axes ct)).
+  { rewrite (ni_shape _ _ _ Hcn), Htc, map_length. reflexivity. }
+  assert (Hpc : p <> c) by (intros ->; apply (wf_not_self_parent s c cn H Ec Epar)).
+  assert (Hnp : new <> p) by (intros ->; congruence).
+  assert (Hnc : new <> c) by (intros ->; congruence).
+  (* the parent's record *)
+  assert (Epn' : pn' = ii_pn c new pn).
+  { unfold replace_neighbour in Hrn. apply memb_In in Hin. rewrite Hin in Hrn.
+    destruct (parent pn) as [pp|] eqn:Epp; [|injection Hrn as <-; reflexivity].
+    destruct (Nat.eqb_spec pp c) as [->|_]; [|injection Hrn as <-; reflexivity].
+    exfalso. apply (wf_parent_not_child s c cn p pn H Ec Epar Ep Epp). }
+  subst pn'.
+  (* the child's permutation starts with the parent leg *)
+  destruct (perm cn) as [|j pm] eqn:Epm.
+  { exfalso. pose proof (ni_virt _ _ _ Hcn) as Hv. unfold nvirt, nparents, nlegs in Hv. rewrite Epar, Epm in Hv. cbn in Hv. lia. }
+  assert (Hj : ii_j cn = j) by (unfold ii_j; rewrite Epm; reflexivity).
+  pose proof (ni_perm _ _ _ Hcn) as Hperm. rewrite Epm in Hperm.
+  assert (Hndp : NoDup (j :: pm)) by (apply (Permutation_NoDup (Permutation_sym Hperm)); apply seq_NoDup).
+  assert (Hb : forall i, In i (j :: pm) -> i < length (axes ct)) by (rewrite <- Hlen; apply (perm_bound _ _ Hperm)).
+  inversion Hndp as [|? ? Hjni Hndpm]; subst x l.
+  assert (Hjlt : j < length (axes ct)) by (apply Hb; left; reflexivity).
+  assert (Hwires : forall x, In x (axes ct) -> x < next_wire s) by (intros x Hx; apply (wf_wires s H c ct x Et Hx)).
+  exists cn, pn, ct, pm, (permute 0 pm (axes ct)).
+  rewrite Hj. do 9 (split; [assumption|]).
+  split; [exact Epm|]. split; [exact Hjni|]. split; [exact Hjlt|].
+  split; [unfold laxes, ii_cw; rewrite Epm, Hj; reflexivity|].
+  split.
+  { unfold laxes, ii_ct. cbn [with_parent perm axes]. rewrite Epm, Hj. apply permute_set_nth_head; assumption. }
+  split.
+  { intros Hin'. apply (permute_incl 0) in Hin'; [|intros i Hi'; apply Hb; right; exact Hi'].
+    apply Hwires in Hin'. lia. }
+  split.
+  { unfold ii_cw. rewrite Hj. apply Hwires. apply nth_In. exact Hjlt. }
+  unfold ii_ct, ii_nt, ii_cw. rewrite Hj. unfold ii_j in *. rewrite Epm in *. cbn [nth] in *.
+  repeat split; assumption.
+Qed.
+
+Lemma own_of_incl_laxes n t : incl (own_of n t) (laxes n t).
+Proof.
+  unfold own_of. intros x Hx. apply in_app_or in Hx. destruct Hx as [Hx|Hx].
+  - apply (firstn_incl _ _ x Hx).
+  - apply (skipn_incl _ _ x Hx).
+Qed.
+
+Lemma wf_laxes_incl s k nk : wf s -> aget k (nodes s) = Some nk -> incl (lax s k nk) (axes (tens s k)).
+Proof.
+  intros H E. unfold lax, laxes. apply permute_incl.
+  pose proof (wf_node s H k nk E) as Hn.
+  replace (length (axes (tens s k))) with (length (shape nk)); [apply perm_bound; apply (ni_perm _ _ _ Hn)|].
+  rewrite (ni_shape _ _ _ Hn), map_length. reflexivity.
+Qed.
+
+Lemma wf_lax_lt s k nk x : wf s -> aget k (nodes s) = Some nk -> In x (lax s k nk) -> x < next_wire s.
+Proof.
+  intros H E Hx. apply (wf_laxes_incl s k nk H E) in Hx.
+  apply (wf_wires s H k (tens s k) x (wf_tens s k nk H E) Hx).
+Qed.
+
+Theorem insert_identity_preserves_wf s c p new s' : wf s -> insert_identity s c p new = Some s' -> wf s'.
+Proof.
+  intros H Hi.
+  destruct (insert_identity_facts _ _ _ _ _ H Hi)
+    as (cn & pn & ct & pm & L' & Ec & Ep & Et & Epar & Hin & Hnew & Hpc & Hnp & Hnc & Epm & Hjni & Hjlt & HL & HL2 & HwL & Hcw
+        & Hn' & Ht' & Hr' & Hd' & Hw' & _).
+  set (w := next_wire s) in *. set (cw := ii_cw cn ct) in *. set (d := wdim s cw) in *.
+  set (cn' := with_parent cn (Some new)) in *. set (pn' := ii_pn c new pn) in *. set (n2 := ii_node p c d) in *.
+  set (ct' := ii_ct s cn ct) in *. set (nt := ii_nt s cn ct) in *.
+  pose proof (wf_node s H c cn Ec) as Hcn. pose proof (wf_node s H p pn Ep) as Hpn.
+  assert (Htc : tens s c = ct) by (apply tens_aget; exact Et).
+  assert (Hnewk : ~ In new (akeys (nodes s))) by (apply aget_None; exact Hnew).
+  assert (F1 : forall k, aget k (nodes s') =
+            if Nat.eqb k new then Some n2 else if Nat.eqb k p then Some pn' else if Nat.eqb k c then Some cn' else aget k (nodes s)).
+  { intros k. rewrite Hn', !aget_aset. reflexivity. }
+  assert (F2 : forall k, tens s' k = if Nat.eqb k new then nt else if Nat.eqb k c then ct' else tens s k).
+  { intros k. unfold tens. rewrite Ht', !aget_aset. destruct (Nat.eqb k new); [reflexivity|]. destruct (Nat.eqb k c); reflexivity. }
+  assert (Hwd : aget w (dims s) = None).
+  { apply aget_None. intros Hin'. apply (wf_dims s H) in Hin'. unfold w in Hin'. lia. }
+  assert (W : forall x, wdim s' x = if Nat.eqb x w then d else wdim s x) by (intros x; apply (wdim_snoc s s' w d x Hd' Hwd)).
+  assert (Wold : forall k nk, aget k (nodes s) = Some nk ->
+            map (wdim s') (axes (tens s k)) = map (wdim s) (axes (tens s k))).
+  { intros k nk E. apply map_ext_in. intros x Hx. rewrite W.
+    pose proof (wf_wires s H k (tens s k) x (wf_tens s k nk H E) Hx) as Hlt. fold w in Hlt.
+    destruct (Nat.eqb_spec x w); [lia|reflexivity]. }
+  assert (Hlc : lax s c cn = cw :: L') by (unfold lax; rewrite Htc; exact HL).
+  assert (Hlc' : lax s' c cn' = w :: L').
+  { unfold lax. rewrite F2. destruct (Nat.eqb_spec c new); [congruence|]. rewrite Nat.eqb_refl. exact HL2. }
+  assert (Hnewch : forall k nk, aget k (nodes s) = Some nk -> ~ In new (children nk)).
+  { intros k nk E Hx. apply Hnewk. apply (wf_neighbours_keys s k nk new H E). unfold neighbouring_nodes.
+    destruct (parent nk); [right|]; exact Hx. }
+  assert (Hnewpar : forall k nk, aget k (nodes s) = Some nk -> parent nk <> Some new).
+  { intros k nk E Hx. apply Hnewk. apply (wf_neighbours_keys s k nk new H E). unfold neighbouring_nodes.
+    rewrite Hx. left. reflexivity. }
+  (* backward and forward correspondence of the old nodes *)
+  assert (C3 : forall k nk', k <> new -> aget k (nodes s') = Some nk' ->
+            exists nk, aget k (nodes s) = Some nk /\ perm nk' = perm nk /\ shape nk' = shape nk /\
+                       parent nk' = (if Nat.eqb k c then Some new else parent nk) /\
+                       children nk' = (if Nat.eqb k p then replace_first c new (children nk) else children nk) /\
+                       lax s' k nk' = (if Nat.eqb k c then w :: L' else lax s k nk)).
+  { intros k nk' Hk E. rewrite F1 in E. destruct (Nat.eqb_spec k new); [congruence|].
+    destruct (Nat.eqb_spec k p) as [->|Hkp].
+    - injection E as <-. exists pn. destruct (Nat.eqb_spec p c); [congruence|]. repeat split; auto.
+      unfold lax. rewrite F2. destruct (Nat.eqb_spec p new); [congruence|]. destruct (Nat.eqb_spec p c); [congruence|]. reflexivity.
+    - destruct (Nat.eqb_spec k c) as [->|Hkc].
+      + injection E as <-. exists cn. repeat split; auto.
+      + exists nk'. repeat split; auto. unfold lax. rewrite F2.
+        destruct (Nat.eqb_spec k new); [congruence|]. destruct (Nat.eqb_spec k c); [congruence|]. reflexivity. }
+  assert (C4 : forall k nk, aget k (nodes s) = Some nk ->
+            exists nk', aget k (nodes s') = Some nk' /\ perm nk' = perm nk /\ shape nk' = shape nk /\
+                        parent nk' = (if Nat.eqb k c then Some new else parent nk) /\
+                        children nk' = (if Nat.eqb k p then replace_first c new (children nk) else children nk) /\
+                        lax s' k nk' = (if Nat.eqb k c then w :: L' else lax s k nk)).
+  { intros k nk E. assert (Hk : k <> new) by (intros ->; congruence).
+    assert (exists nk', aget k (nodes s') = Some nk') as [nk' E'].
+    { rewrite F1. destruct (Nat.eqb k new); [eauto|]. destruct (Nat.eqb k p); [eauto|]. destruct (Nat.eqb k c); eauto. }
+    exists nk'. split; [exact E'|]. destruct (C3 k nk' Hk E') as (nk0 & E0 & R). rewrite E in E0. injection E0 as <-. exact R. }
+  assert (Hnvirt : forall k nk nk', parent nk' = (if Nat.eqb k c then Some new else parent nk) ->
+            children nk' = (if Nat.eqb k p then replace_first c new (children nk) else children nk) ->
+            aget k (nodes s) = Some nk -> nparents nk' = nparents nk /\ nvirt nk' = nvirt nk).
+  { intros k nk nk' Hp Hc E. assert (Hnp' : nparents nk' = nparents nk).
+    { unfold nparents. rewrite Hp. destruct (Nat.eqb_spec k c) as [->|]; [|reflexivity].
+      rewrite Ec in E. injection E as <-. rewrite Epar. reflexivity. }
+    split; [exact Hnp'|]. unfold nvirt. rewrite Hnp', Hc. destruct (Nat.eqb k p); [rewrite replace_first_length|]; reflexivity. }
+  (* owned wires *)
+  destruct (nvirt cn) as [|m] eqn:Hm.
+  { exfalso. unfold nvirt, nparents in Hm. rewrite Epar in Hm. cbn in Hm. lia. }
+  set (R := skipn m L').
+  assert (Hownc : own_of cn (tens s c) = cw :: R).
+  { unfold own_of, nparents. rewrite Epar, Hm, Htc, HL. reflexivity. }
+  assert (Hownc' : own_of cn' (tens s' c) = w :: R).
+  { unfold own_of. fold (lax s' c cn'). rewrite Hlc'.
+    replace (nparents cn') with 1 by reflexivity. replace (nvirt cn') with (S m) by (rewrite <- Hm; reflexivity). reflexivity. }
+  assert (HRL : incl R L') by (apply skipn_incl).
+  assert (HndR : NoDup (cw :: R)) by (rewrite <- Hownc; apply (wf_own1 s H c cn Ec)).
+  assert (Hown' : forall k nk nk', k <> c -> aget k (nodes s) = Some nk -> aget k (nodes s') = Some nk' ->
+            own_of nk' (tens s' k) = own_of nk (tens s k)).
+  { intros k nk nk' Hkc E E'. assert (Hk : k <> new) by (intros ->; congruence).
+    destruct (C3 k nk' Hk E') as (nk0 & E0 & _ & _ & Hp & Hc & Hl). rewrite E in E0. injection E0 as <-.
+    destruct (Hnvirt k nk nk' Hp Hc E) as [Hnp' Hnv]. apply own_of_ext2; auto.
+    destruct (Nat.eqb_spec k c); [congruence|]. exact Hl. }
+  assert (Hownnew : own_of n2 (tens s' new) = [cw]).
+  { rewrite F2, Nat.eqb_refl. reflexivity. }
+  assert (Hownlt : forall k nk x, aget k (nodes s) = Some nk -> In x (own_of nk (tens s k)) -> x < w).
+  { intros k nk x E Hx. apply own_of_incl_laxes in Hx. apply (wf_lax_lt s k nk x H E Hx). }
+  assert (ClaimA : forall k nk' x, k <> new -> aget k (nodes s') = Some nk' -> In x (own_of nk' (tens s' k)) ->
+            (x = w /\ k = c) \/ (x <> w /\ x <> cw /\ exists nk, aget k (nodes s) = Some nk /\ In x (own_of nk (tens s k)))).
+  { intros k nk' x Hk E' Hx. destruct (C3 k nk' Hk E') as (nk & E & _).
+    destruct (Nat.eq_dec k c) as [->|Hkc].
+    - rewrite Ec in E. injection E as <-. assert (nk' = cn').
+      { rewrite F1 in E'. destruct (Nat.eqb_spec c new); [congruence|]. destruct (Nat.eqb_spec c p); [congruence|].
+        rewrite Nat.eqb_refl in E'. congruence. }
+      subst nk'. rewrite Hownc' in Hx. destruct Hx as [<-|Hx]; [left; split; reflexivity|]. right.
+      split; [intros ->; apply HwL; apply HRL; exact Hx|]. split.
+      + intros ->. inversion HndR; contradiction.
+      + exists cn. split; [exact Ec|]. rewrite Hownc. right. exact Hx.
+    - rewrite (Hown' k nk nk' Hkc E E') in Hx. right. pose proof (Hownlt k nk x E Hx) as Hlt.
+      split; [lia|]. split.
+      + intros ->. apply Hkc. apply (wf_own2 s H k nk c cn cw E Ec Hx). rewrite Hownc. left. reflexivity.
+      + exists nk. split; assumption. }
+  constructor.
+  - rewrite Hn'. do 3 apply NoDup_akeys_aset. apply (wf_nd s H).
+  - rewrite Ht'. do 2 apply NoDup_akeys_aset. apply (wf_tnd s H).
+  - intros k. rewrite Ht', Hn', !amem_aset. intros Hk.
+    destruct (Nat.eqb k new); [reflexivity|]. destruct (Nat.eqb k c); [rewrite orb_true_r; reflexivity|]. cbn in Hk.
+    rewrite (wf_tn s H k Hk), !orb_true_r. reflexivity.
+  - destruct (wf_root s H) as (r & rn & Hr & Er & Hpr & Huniq).
+    destruct (C4 r rn Er) as (rn' & Er' & _ & _ & Hp & _).
+    exists r, rn'. split; [rewrite Hr'; exact Hr|]. split; [exact Er'|]. split.
+    + rewrite Hp. destruct (Nat.eqb_spec r c) as [->|]; [|exact Hpr]. rewrite Ec in Er. injection Er as <-. congruence.
+    + intros k nk' E' Hp'. destruct (Nat.eq_dec k new) as [->|Hk].
+      * rewrite F1, Nat.eqb_refl in E'. injection E' as <-. discriminate.
+      * destruct (C3 k nk' Hk E') as (nk & E & _ & _ & Hp2 & _). rewrite Hp2 in Hp'.
+        destruct (Nat.eqb k c); [discriminate|]. apply (Huniq k nk E Hp').
+  - intros k nk' E'. destruct (Nat.eq_dec k new) as [->|Hk].
+    + (* the new node *)
+      rewrite F1, Nat.eqb_refl in E'. injection E' as <-.
+      destruct (ni_par _ _ _ Hcn p Epar) as (pn0 & i & Epn0 & _ & Hni & Hwire). rewrite Ep in Epn0. injection Epn0 as <-.
+      destruct (C4 p pn Ep) as (pn2 & Ep2 & _ & _ & Hpp & Hpc2 & Hpl).
+      rewrite Nat.eqb_refl in Hpc2. destruct (Nat.eqb_spec p c) as [|_]; [congruence|].
+      constructor.
+      * rewrite Ht', amem_aset, Nat.eqb_refl. reflexivity.
+      * reflexivity.
+      * rewrite F2, Nat.eqb_refl. cbn. rewrite !W, Nat.eqb_refl. fold cw.
+        destruct (Nat.eqb_spec cw w); [lia|]. reflexivity.
+      * cbn. lia.
+      * cbn. constructor; [intros []|constructor].
+      * intros x [<-|[]]. destruct (C4 c cn Ec) as (cn2 & Ec2 & _ & _ & Hcp & _). rewrite Nat.eqb_refl in Hcp. eauto.
+      * intros q Hq. cbn in Hq. injection Hq as <-. exists pn2, i. split; [exact Ep2|]. split.
+        { rewrite Hpc2. apply In_replace_first_new. exact Hin. }
+        split.
+        { unfold neighbour_index in *. rewrite Hpp, Hpc2.
+          destruct (parent pn) as [pp|] eqn:Epp.
+          - destruct (Nat.eqb_spec new pp) as [->|_]; [exfalso; apply (Hnewpar p pn Ep Epp)|].
+            destruct (Nat.eqb_spec c pp) as [->|_]; [exfalso; apply (wf_parent_not_child s pp cn p pn H Ec Epar Ep Epp)|].
+            rewrite index_of_replace_first_new; [exact Hni|apply (Hnewch p pn Ep)].
+          - rewrite index_of_replace_first_new; [exact Hni|apply (Hnewch p pn Ep)]. }
+        { rewrite Hpl, <- Hwire, Hlc. unfold lax. rewrite F2, Nat.eqb_refl. reflexivity. }
+    + destruct (C3 k nk' Hk E') as (nk & E & Hperm & Hshape & Hp & Hc & Hl).
+      pose proof (wf_node s H k nk E) as Hn. destruct (Hnvirt k nk nk' Hp Hc E) as [Hnp' Hnv].
+      constructor.
+      * rewrite Ht', !amem_aset. rewrite (ni_t _ _ _ Hn), !orb_true_r. reflexivity.
+      * rewrite Hperm, Hshape. apply (ni_perm _ _ _ Hn).
+      * rewrite Hshape, (ni_shape _ _ _ Hn), F2. destruct (Nat.eqb_spec k new); [congruence|].
+        destruct (Nat.eqb_spec k c) as [->|Hkc]; [|symmetry; apply (Wold k nk E)].
+        rewrite Htc. unfold ct', ii_ct. cbn [axes]. rewrite map_set_nth. fold w. rewrite W, Nat.eqb_refl.
+        rewrite <- (Wold c cn Ec), Htc. unfold d, cw, ii_cw.
+        replace (wdim s (nth (ii_j cn) (axes ct) 0)) with (nth (ii_j cn) (map (wdim s') (axes ct)) (wdim s' 0)).
+        { rewrite set_nth_nth. reflexivity. }
+        rewrite (map_nth (wdim s')). rewrite W. fold (ii_cw cn ct). fold cw. destruct (Nat.eqb_spec cw w); [lia|reflexivity].
+      * rewrite Hnv. unfold nlegs. rewrite Hperm. apply (ni_virt _ _ _ Hn).
+      * rewrite Hc. destruct (Nat.eqb k p); [|apply (ni_chnd _ _ _ Hn)].
+        apply NoDup_replace_first; [apply (ni_chnd _ _ _ Hn)|apply (Hnewch k nk E)].
+      * intros x Hx. rewrite Hc in Hx. destruct (Nat.eqb_spec k p) as [->|Hkp].
+        { rewrite Ep in E. injection E as <-. apply In_replace_first in Hx. destruct Hx as [->|[Hx Hxc]].
+          - exists n2. split; [rewrite F1, Nat.eqb_refl; reflexivity|reflexivity].
+          - specialize (Hxc (ni_chnd _ _ _ Hpn)). destruct (ni_ch _ _ _ Hpn x Hx) as (xn & Ex & Epx).
+            destruct (C4 x xn Ex) as (xn' & Ex' & _ & _ & Hxp & _). exists xn'. split; [exact Ex'|].
+            rewrite Hxp. destruct (Nat.eqb_spec x c); [congruence|exact Epx]. }
+        { destruct (ni_ch _ _ _ Hn x Hx) as (xn & Ex & Epx).
+          destruct (C4 x xn Ex) as (xn' & Ex' & _ & _ & Hxp & _). exists xn'. split; [exact Ex'|].
+          rewrite Hxp. destruct (Nat.eqb_spec x c) as [->|]; [|exact Epx].
+          rewrite Ec in Ex. injection Ex as <-. congruence. }
+      * intros q Hq. rewrite Hp in Hq. destruct (Nat.eqb_spec k c) as [->|Hkc].
+        { (* the child now hangs below the new node *)
+          injection Hq as <-. exists n2, 1. split; [rewrite F1, Nat.eqb_refl; reflexivity|].
+          split; [left; reflexivity|]. split.
+          - unfold neighbour_index. cbn. destruct (Nat.eqb_spec c p); [congruence|]. rewrite Nat.eqb_refl. reflexivity.
+          - rewrite Ec in E. injection E as <-. rewrite Hl. unfold lax. rewrite F2, Nat.eqb_refl. reflexivity. }
+        destruct (ni_par _ _ _ Hn q Hq) as (qn & i & Eq & Hinq & Hni & Hwire).
+        destruct (C4 q qn Eq) as (qn' & Eq' & _ & _ & Hqp & Hqc & Hql).
+        exists qn', i. split; [exact Eq'|]. split.
+        { rewrite Hqc. destruct (Nat.eqb k p); destruct (Nat.eqb q p); try exact Hinq;
+            apply In_replace_first_other; assumption. }
+        assert (Hkp : q = c -> k <> p).
+        { intros -> ->. rewrite Ec in Eq. injection Eq as <-. apply (wf_parent_not_child s c cn p nk H Ec Epar E Hq). }
+        split.
+        { unfold neighbour_index in *. rewrite Hqp, Hqc.
+          destruct (Nat.eqb_spec q c) as [->|Hqc'].
+          - rewrite Ec in Eq. injection Eq as <-. rewrite Epar in Hni.
+            destruct (Nat.eqb_spec k new); [congruence|]. destruct (Nat.eqb_spec k p) as [->|_]; [exfalso; apply (Hkp eq_refl eq_refl)|].
+            destruct (Nat.eqb_spec c p); [congruence|]. exact Hni.
+          - destruct (Nat.eqb_spec q p) as [->|_]; [|exact Hni].
+            rewrite (index_of_replace_first_other c new _ k Hkc Hk). exact Hni. }
+        { rewrite Hl, Hql. destruct (Nat.eqb_spec k c); [congruence|]. rewrite Hwire.
+          destruct (Nat.eqb_spec q c) as [->|]; [|reflexivity].
+          rewrite Ec in Eq. injection Eq as <-. rewrite Hlc.
+          unfold neighbour_index in Hni. rewrite Epar in Hni.
+          destruct (Nat.eqb_spec k p) as [->|_]; [exfalso; apply (Hkp eq_refl eq_refl)|].
+          destruct (index_of k (children cn)) as [i0|]; [|discriminate]. injection Hni as <-.
+          replace (i0 + 1) with (S i0) by lia. reflexivity. }
+  - intros k nk' E'. destruct (Nat.eq_dec k new) as [->|Hk].
+    + rewrite F1, Nat.eqb_refl in E'. injection E' as <-. rewrite Hownnew. constructor; [intros []|constructor].
+    + destruct (C3 k nk' Hk E') as (nk & E & _). destruct (Nat.eq_dec k c) as [->|Hkc].
+      * assert (nk' = cn').
+        { rewrite F1 in E'. destruct (Nat.eqb_spec c new); [congruence|]. destruct (Nat.eqb_spec c p); [congruence|].
+          rewrite Nat.eqb_refl in E'. congruence. }
+        subst nk'. rewrite Hownc'. inversion HndR; subst. constructor; [|assumption].
+        intros Hx. apply HwL. apply HRL. exact Hx.
+      * rewrite (Hown' k nk nk' Hkc E E'). apply (wf_own1 s H k nk E).
+  - intros k1 n1 k2 n2' x E1 E2 H1 H2.
+    destruct (Nat.eq_dec k1 new) as [->|Hk1]; destruct (Nat.eq_dec k2 new) as [->|Hk2]; [reflexivity| | |].
+    + exfalso. rewrite F1, Nat.eqb_refl in E1. injection E1 as <-. rewrite Hownnew in H1. destruct H1 as [<-|[]].
+      destruct (ClaimA k2 n2' cw Hk2 E2 H2) as [[Hx _]|(_ & Hx & _)]; [lia|congruence].
+    + exfalso. rewrite F1, Nat.eqb_refl in E2. injection E2 as <-. rewrite Hownnew in H2. destruct H2 as [<-|[]].
+      destruct (ClaimA k1 n1 cw Hk1 E1 H1) as [[Hx _]|(_ & Hx & _)]; [lia|congruence].
+    + destruct (ClaimA k1 n1 x Hk1 E1 H1) as [[Hx1 Hc1]|(Hx1 & _ & m1 & G1 & O1)];
+        destruct (ClaimA k2 n2' x Hk2 E2 H2) as [[Hx2 Hc2]|(Hx2 & _ & m2 & G2 & O2)]; try congruence.
+      apply (wf_own2 s H k1 m1 k2 m2 x G1 G2 O1 O2).
+  - intros k t x E Hx. rewrite Hw'. fold w. rewrite Ht', !aget_aset in E.
+    destruct (Nat.eqb k new).
+    + injection E as <-. cbn in Hx. destruct Hx as [<-|[<-|[]]]; lia.
+    + destruct (Nat.eqb k c).
+      * injection E as <-. cbn in Hx. apply In_set_nth in Hx. destruct Hx as [->|Hx]; [fold w; lia|].
+        pose proof (wf_wires s H c ct x Et Hx). fold w in H0. lia.
+      * pose proof (wf_wires s H k t x E Hx). fold w in H0. lia.
+  - intros x Hx. rewrite Hd', akeys_app in Hx. rewrite Hw'. apply in_app_or in Hx. destruct Hx as [Hx|Hx].
+    + apply (wf_dims s H) in Hx. lia.
+    + cbn in Hx. destruct Hx as [<-|[]]. fold w. lia.
+  - destruct (wf_acyc s H) as [dp Hdp]. pose proof (Hdp c cn p Ec Epar) as Hcp.
+    exists (fun k => if Nat.eqb k new then 2 * dp c - 1 else 2 * dp k).
+    intros x xn' q E' Hq. destruct (Nat.eqb_spec x new) as [->|Hx].
+    + rewrite F1, Nat.eqb_refl in E'. injection E' as <-. cbn in Hq. injection Hq as <-.
+      destruct (Nat.eqb_spec p new); [congruence|]. lia.
+    + destruct (C3 x xn' Hx E') as (xn & E & _ & _ & Hp & _). rewrite Hp in Hq.
+      destruct (Nat.eqb_spec x c) as [->|Hxc].
+      * injection Hq as <-. rewrite Nat.eqb_refl. lia.
+      * destruct (Nat.eqb_spec q new) as [->|_]; [exfalso; apply (Hnewpar x xn E Hq)|].
+        pose proof (Hdp x xn q E Hq). lia.
+Qed.
